@@ -140,6 +140,8 @@ macro_rules! cmp {
 
             (A::Interval(a), A::Interval(b)) => binary_op(a.as_ref(), b.as_ref(), |a, b| a $op b),
 
+            (A::Blob(a), A::Blob(b)) => binary_op(a.as_ref(), b.as_ref(), |a, b| a $op b),
+
             _ => return Err(ConvertError::NoBinaryOp(stringify!($name).into(), self.type_string(), other.type_string())),
         })))
         }
